@@ -300,6 +300,9 @@ class Gen:
         pool = [v for v in self.numeric_vars() if v not in self.protected]
         if pool and r.random() < 0.5:
             name = r.choice(pool)
+        elif self.locals is not None and self.feature('shared_names', False) and r.random() < 0.7:
+            # the same few local names in every routine: activations must keep them apart
+            name = r.choice(['t', 'u', 'acc'])
         else:
             name = self.fresh('x')
         rv = self.rvalue(allow_neg=True)
@@ -469,6 +472,8 @@ class Gen:
             return self.recursive_routine()
         name = self.fresh('fn')
         params = [self.fresh('p') for _ in range(r.choice([0, 1, 1, 2, 3]))]
+        if self.feature('shared_names', False) and r.random() < 0.7:
+            params = r.sample(['a', 'b', 'n', 't', 'u', 'acc'], len(params))
         # a parameter may shadow a global
         if self.globals and r.random() < self.features.get('shadow', 0.4) and params:
             params[0] = r.choice(self.globals)
